@@ -1194,6 +1194,14 @@ class Interp(Ops, B.BuiltinsMixin):
             v = self.ev(e, fr)
             if i == len(n.values) - 1:
                 return v
+            # `x or <number>` on a symbolic number: both outcomes merge into one term (no path split);
+            # python: x if x else c
+            if (not isand and i == len(n.values) - 2 and isinstance(v, SV) and v.ty in ("int", "real")
+                    and isinstance(n.values[-1], ast.Constant) and type(n.values[-1].value) in (int, float)):
+                cst = n.values[-1].value
+                w = "real" if (v.ty == "real" or isinstance(cst, float)) else "int"
+                zv, zc = to_z3(v, w), to_z3(cst, w)
+                return SV(z3.If(zv != 0, zv, zc), w)
             c = self.truth(v)
             t = self.st.branch(c, f"boolop@{n.lineno}")
             if isand and not t:
